@@ -2,10 +2,9 @@ import NeumannModel.Paths.Model
 /-
   C18 — declarative side: what a "real" path is (walks that respect edge direction and the filter),
   independent of how the engine searches.  The theorems of `Props.lean` relate the model functions of
-  `Model.lean` to these definitions.  The last section gives textbook definitions for the algorithm
-  family (components, spanning forest weight, core numbers, triangles); those are NOT proved against a
-  model of the Rust algorithms — they document what the harness-side reference implementations of
-  `corr_paths` compute and compare with the engine (correspondence only).
+  `Model.lean` to these definitions.  The last section gives first-draft textbook definitions for the
+  algorithm family; the definitions the theorems of `AlgoProps.lean` are stated against (with the
+  engine's `edge_type` option) are in `AlgoSpec.lean`.
 -/
 namespace Neumann.Paths
 
@@ -98,7 +97,7 @@ def VarPathOk (g : Graph) (cfg : VarCfg) (flt : Flt) (src tgt : Nat) (p : Path) 
   cfg.minHops ≤ p.edges.length ∧ p.edges.length ≤ cfg.maxHops ∧
   (cfg.allowCycles = false → p.nodes.Nodup)
 
-/-! ### Spec — textbook definitions for the algorithm family (compared by the correspondence only) -/
+/-! ### Spec — textbook definitions for the algorithm family (superseded by `AlgoSpec.lean`) -/
 section Spec
 
 /-- undirected adjacency ignoring direction, self-loops and multiplicity (what `neighbors(_, Both)` gives) -/
